@@ -120,13 +120,15 @@ package stake
 //@ func (ctrler *StakeCtrler) ValidateTrx(ctx)
 //@   nopanic
 //@   implements (ITrxHandler_TrxStakeHandler).ValidateTrx
-//@   objinv ctrler != nil && ctrler.delegateeLedger != nil && ctrler.rewardLedger != nil && ctrler.govParams != nil && ctrler.stakeLimiter != nil
+//@   objinv ctrler != nil && ctrler.delegateeLedger != nil && ctrler.rewardLedger != nil && ctrler.govParams != nil && ctrler.stakeLimiter != nil && ctrler.checkLimiter != nil
 //@   assumes cons_ok == ctx.Exec
 //@   assumes u(ctx.Sender.Balance) < 2^120
 //@   requires wf_ctx(ctx) && u(ctx.Tx.Amount) <= u(ctx.Sender.Balance)
 //@   modifies allmaps(memItems.gotItems), itemkey, itemenc, StakeLimiter.*, powerObj.*, allelems(StakeLimiter.powerObjs)
 //@   allocates Delegatee, Stake, BlockMarker, Reward, uint256.Int, powerObj
 //@   ensures result == nil ==> stake_ready(ctrler, ctx)                                                      [C13]
+//@   assert@call(CheckLimit,0): $arg0 == (ctx.Exec ? ctrler.stakeLimiter : ctrler.checkLimiter)                [C06]
+//@   assert@call(CheckLimit,1): $arg0 == (ctx.Exec ? ctrler.stakeLimiter : ctrler.checkLimiter)                [C06]
 //@   ensures result == nil ==> ctx.Tx.Type == 2 || ctx.Tx.Type == 3 || ctx.Tx.Type == 8                      [C09]
 //@   ensures result == nil && ctx.Tx.Type == 2 ==> u(ctx.Tx.Amount) >= 10^18 && u(ctx.Tx.Amount) % 10^18 == 0   [C11]
 //@   ensures result == nil && ctx.Tx.Type == 8 ==> u(ctx.Tx.Amount) == 0 && istype(ctx.Tx.Payload, ptr(TrxPayloadWithdraw))   [C13]
@@ -287,11 +289,11 @@ package stake
 //@   allocates powerObj, []*powerObj
 
 //@ func (ctrler *StakeCtrler) BeginBlock(blockCtx)
-//@   objinv ctrler != nil && ctrler.delegateeLedger != nil && ctrler.frozenLedger != nil && ctrler.rewardLedger != nil && ctrler.govParams != nil && ctrler.stakeLimiter != nil
+//@   objinv ctrler != nil && ctrler.delegateeLedger != nil && ctrler.frozenLedger != nil && ctrler.rewardLedger != nil && ctrler.govParams != nil && ctrler.stakeLimiter != nil && ctrler.checkLimiter != nil
 //@   assumes cons_ok && blockHeight == bheight(blockCtx)
 //@   requires blockCtx != nil && blockCtx.GovHandler != nil && bheight(blockCtx) >= 1 && bheight(blockCtx) < 2^62
 //@   modifies everything
-//@   preserves ctrler.delegateeLedger, ctrler.frozenLedger, ctrler.rewardLedger, ctrler.govParams, ctrler.stakeLimiter, cons_ok, blockHeight
+//@   preserves ctrler.delegateeLedger, ctrler.frozenLedger, ctrler.rewardLedger, ctrler.govParams, ctrler.stakeLimiter, ctrler.checkLimiter, cons_ok, blockHeight
 //@   assert@call(doPunish,0): $arg2 == govSlashRatio[blockCtx.GovHandler]                                     [C14]
 //@   assert@call(ImmutableLedgerAt,0): $arg0 == (bheight(blockCtx) - 4 >= 1 ? bheight(blockCtx) - 4 : 1)           [C13]
 //@   assert@call(doRewardTo,0): vote.SignedLastBlock && $arg2 == bheight(blockCtx)                              [C13]
@@ -301,10 +303,10 @@ package stake
 //@   assert@call(SetFinality,0): $arg0 == delg_at(ctrler.delegateeLedger, lkey(content(vote.Validator.Address)), true)   [C11,C14]
 //@   assert@call(SetFinality,1): $arg0 == _s0 && $target == ctrler.frozenLedger                               [C11,C12]
 //@   assert@call(DelFinality,0): $target == ctrler.delegateeLedger                                          [C11]
-//@   loop 0: invariant cons_ok && blockHeight == bheight(blockCtx) && bheight(blockCtx) == old(bheight(blockCtx)) && ctrler.delegateeLedger == old(ctrler.delegateeLedger) && ctrler.frozenLedger == old(ctrler.frozenLedger) && ctrler.rewardLedger == old(ctrler.rewardLedger) && ctrler.govParams == old(ctrler.govParams) && ctrler.stakeLimiter == old(ctrler.stakeLimiter) && blockCtx.GovHandler == old(blockCtx.GovHandler)
-//@   loop 1: invariant cons_ok && blockHeight == bheight(blockCtx) && bheight(blockCtx) == old(bheight(blockCtx)) && ctrler.delegateeLedger == old(ctrler.delegateeLedger) && ctrler.frozenLedger == old(ctrler.frozenLedger) && ctrler.rewardLedger == old(ctrler.rewardLedger) && ctrler.govParams == old(ctrler.govParams) && ctrler.stakeLimiter == old(ctrler.stakeLimiter) && blockCtx.GovHandler == old(blockCtx.GovHandler)
+//@   loop 0: invariant cons_ok && blockHeight == bheight(blockCtx) && bheight(blockCtx) == old(bheight(blockCtx)) && ctrler.delegateeLedger == old(ctrler.delegateeLedger) && ctrler.frozenLedger == old(ctrler.frozenLedger) && ctrler.rewardLedger == old(ctrler.rewardLedger) && ctrler.govParams == old(ctrler.govParams) && ctrler.stakeLimiter == old(ctrler.stakeLimiter) && ctrler.checkLimiter == old(ctrler.checkLimiter) && blockCtx.GovHandler == old(blockCtx.GovHandler)
+//@   loop 1: invariant cons_ok && blockHeight == bheight(blockCtx) && bheight(blockCtx) == old(bheight(blockCtx)) && ctrler.delegateeLedger == old(ctrler.delegateeLedger) && ctrler.frozenLedger == old(ctrler.frozenLedger) && ctrler.rewardLedger == old(ctrler.rewardLedger) && ctrler.govParams == old(ctrler.govParams) && ctrler.stakeLimiter == old(ctrler.stakeLimiter) && ctrler.checkLimiter == old(ctrler.checkLimiter) && blockCtx.GovHandler == old(blockCtx.GovHandler)
 //@   loop 1: invariant issuedReward != nil && immuDelegateeLedger != nil
-//@   loop 2: invariant cons_ok && blockHeight == bheight(blockCtx) && bheight(blockCtx) == old(bheight(blockCtx)) && ctrler.delegateeLedger == old(ctrler.delegateeLedger) && ctrler.frozenLedger == old(ctrler.frozenLedger) && ctrler.rewardLedger == old(ctrler.rewardLedger) && ctrler.govParams == old(ctrler.govParams) && ctrler.stakeLimiter == old(ctrler.stakeLimiter) && blockCtx.GovHandler == old(blockCtx.GovHandler)
+//@   loop 2: invariant cons_ok && blockHeight == bheight(blockCtx) && bheight(blockCtx) == old(bheight(blockCtx)) && ctrler.delegateeLedger == old(ctrler.delegateeLedger) && ctrler.frozenLedger == old(ctrler.frozenLedger) && ctrler.rewardLedger == old(ctrler.rewardLedger) && ctrler.govParams == old(ctrler.govParams) && ctrler.stakeLimiter == old(ctrler.stakeLimiter) && ctrler.checkLimiter == old(ctrler.checkLimiter) && blockCtx.GovHandler == old(blockCtx.GovHandler)
 //@   loop 2: invariant issuedReward != nil && immuDelegateeLedger != nil
 
 // ---- validator set sent to consensus (C10, C01) --------------------------------------------------
